@@ -258,6 +258,8 @@ def suites(tier, seed):
         Suite("handles-submit-whole-frames", "api", lambda: [c for c in __import__("props.c02", fromlist=["x"]).sweep(tier, seed) if c.cid.startswith("s-max") or int(c.cid[1:]) % 3 == 0],
               monitor=__import__("props.c02", fromlist=["x"]).monitor, nontrivial=lambda c, il: True, canon=__import__("apigen").canon,
               rule="assumption A2 checked: whatever a channel handle puts into its queue towards the I/O thread is a whole frame (publishes with bodies of 0 ... 300 000 bytes at frame_max 4096 ... 2^32-1 through the public API; each queue entry decoded strictly) - frames of different channels can then interleave only at frame boundaries"),
+        Suite("deep-queue-one-wake-up", "machine", lambda: mg.deep_queue_cases(Rng(seed + 64)), monitor=monitor, nontrivial=lambda c, il: True, canon=mg.canon_nondet, shrink=False, exhaustive=True,
+              rule="63, 64, 65, 100, 128, 129, 201, 299 frames waiting in one channel's queue (bound 300) when its single, edge-triggered wake-up is handled: one handler run takes them all, in order; the real Poll reports nothing left afterwards"),
         Suite("first-writes-e2e", "hswrite", lambda: __import__("passlog").hswrite_cases(tier), monitor=__import__("passlog").hswrite_monitor, nontrivial=lambda c, il: True, compare=False, shards=4, shrink=False, timeout=200,
               rule="real connection over the edge-triggered mock transport, which takes only the first 0..12 / 20 / ... / 300 bytes (would-block inside the protocol header, inside StartOk, TuneOk, Open; optionally 1-7 bytes per call) and becomes willing again 250 ms later: the rest is written and the connection opens"),
         __import__("passlog").suite("loop-passes", "bp", lambda: __import__("props.c18", fromlist=["x"]).wire_cases(tier), "the wire-e2e cases"),
